@@ -348,8 +348,15 @@ public:
 				}
 
 				if (! tempList.empty()) {
-					std::lock_guard<Mutex> queueListLock(queueListMutex);
-					queueList.splice(queueList.begin(), tempList);
+					{
+						std::lock_guard<Mutex> queueListLock(queueListMutex);
+						queueList.splice(queueList.begin(), tempList);
+					}
+					// While the events were out of queueList, an enqueue() or ~DisableQueueNotify() may
+					// have seen the queue as empty and skipped its notification: notify on their behalf.
+					if(doCanNotifyQueueAvailable()) {
+						queueListConditionVariable.notify_one();
+					}
 				}
 
 				if(! idleList.empty()) {
@@ -404,8 +411,15 @@ public:
 				}
 
 				if (! tempList.empty()) {
-					std::lock_guard<Mutex> queueListLock(queueListMutex);
-					queueList.splice(queueList.begin(), tempList);
+					{
+						std::lock_guard<Mutex> queueListLock(queueListMutex);
+						queueList.splice(queueList.begin(), tempList);
+					}
+					// While the events were out of queueList, an enqueue() or ~DisableQueueNotify() may
+					// have seen the queue as empty and skipped its notification: notify on their behalf.
+					if(doCanNotifyQueueAvailable()) {
+						queueListConditionVariable.notify_one();
+					}
 				}
 
 				if(! idleList.empty()) {
